@@ -149,6 +149,15 @@ impl<R: Read> Read for AesReaderValid<R> {
         // 2^32 bytes even on 32 bit systems.
         let bytes_to_read = self.data_remaining.min(buf.len() as u64) as usize;
         let read = self.reader.read(&mut buf[0..bytes_to_read])?;
+        if read == 0 && bytes_to_read > 0 {
+            // The underlying data ended before the declared ciphertext length: without this
+            // check a truncated entry would end in a clean EOF and the authentication code
+            // would never be verified.
+            return Err(io::Error::new(
+                io::ErrorKind::UnexpectedEof,
+                "AES data ends before its authentication code",
+            ));
+        }
         self.data_remaining -= read as u64;
 
         // Update the hmac with the encrypted data
